@@ -1,7 +1,7 @@
 #!/bin/sh
 # usage: seedcheck.sh <ID> [check ids...]   -- verify a seeded change in /tmp/seed_<ID>
 id=$1; shift
-w=/tmp/seed_$id
+w=/tmp/${SEEDPFX:-seed}_$id
 cd $w || exit 1
 echo "== tests with change"; /venv/bin/python -m pytest -q -p no:cacheprovider --timeout=900 ebpfcat 2>&1 | tail -1
 echo "== demo with change"; /venv/bin/python SEED/demo.py > /tmp/seed_demo_with.txt 2>&1; echo "exit $?"; tail -2 /tmp/seed_demo_with.txt
